@@ -44,8 +44,9 @@ func builtinStringFromCharCode(call FunctionCall) Value {
 
 func builtinStringCharAt(call FunctionCall) Value {
 	checkObjectCoercible(call.runtime, call.This)
+	value := call.This.string()
 	idx := int(call.Argument(0).number().int64)
-	chr, ok := stringAt(newStringObject(call.This.string()), idx)
+	chr, ok := stringAt(newStringObject(value), idx)
 	if !ok {
 		return stringValue("")
 	}
@@ -54,8 +55,9 @@ func builtinStringCharAt(call FunctionCall) Value {
 
 func builtinStringCharCodeAt(call FunctionCall) Value {
 	checkObjectCoercible(call.runtime, call.This)
+	value := call.This.string()
 	idx := int(call.Argument(0).number().int64)
-	chr, ok := stringAt(newStringObject(call.This.string()), idx)
+	chr, ok := stringAt(newStringObject(value), idx)
 	if !ok {
 		return NaNValue()
 	}
